@@ -1,7 +1,7 @@
 """C20 — presentation wrappers and serializer options change layout only, never data (DESIGN §4 C20)."""
 from ..mir import MissingAnchor, sym_contains
 from ..rules import (render, aggregates, last_seg, bool_switches, str_compare_consts, str_consts, char_consts, must_pass,
-                     switch_edges, writes_in)
+                     switch_edges, writes_in, err_return_blocks, compares)
 from . import C12
 
 EXPLANATION = ("TABLE / PAIR / SIBLING rules over the resolved MIR: the reserved names through which wrapper types are smuggled "
@@ -173,6 +173,67 @@ def run(ctx):
         fb = {f.npath for f in fx.fns.values() for b, t in f.calls() if fx.callee(t).endswith("::write_folded_block") and f.name != "write_folded_block"}
         ctx.check(fb == {C12.SER_STR}, "BLOCK", "C20:BLOCK:single-body-writer", "folded bodies are written only from serialize_str", "write_folded_block is also called from %s" % sorted(fb - {C12.SER_STR}), config, ctx.where(nt))
         rule_flow_keys(ctx, fx, config)
+        rule_label_rule_only_before_colon(ctx, fx, config)
+        rule_variants_in_flow(ctx, fx, config)
+
+
+def rule_label_rule_only_before_colon(ctx, fx, config, prop="C20"):
+    """Two quoting rules exist: the *value* rule (knows about flow context, quotes YAML 1.1 boolean / float spellings so that an
+    untyped reader gets the string back) and the *key / label* rule.  The label rule is used only where a `:` follows on every
+    successful path — mapping keys and `Variant:` labels.  Text written in value position through the label rule (the name of a
+    tagged unit variant `!!E yes`, a scalar element …) reads back as another type, or splits a flow collection."""
+    lab = fx.fn("ser::YamlSerializer::write_plain_or_quoted")
+    n = 0
+    for f, b in sorted(fx.callers.get(lab.npath, []), key=lambda x: (x[0].npath, x[1])):
+        n += 1
+        ctx.saw(f)
+        t = f.blocks[b]["term"]
+        colons = []
+        for cb, ct in f.calls():
+            if last_seg(fx.callee_decl(ct) or fx.callee(ct)) in ("write_str", "write_char", "push_str", "push") and len(ct["args"]) > 1:
+                a = f.sym_operand(ct["args"][-1])
+                if a[0] == "const" and isinstance(a[1], str) and a[1].startswith(":"):
+                    colons.append(cb)
+        errs = list(err_return_blocks(f))
+        nxt = t.get("t")
+        ok = nxt is not None and bool(colons) and must_pass(f, [nxt], colons + errs)
+        k = sum(1 for g2, b2 in fx.callers.get(lab.npath, []) if g2 is f and b2 < b) + 1
+        ctx.check(ok, "TABLE", "%s:TABLE:label-rule-only-before-colon:%s#%d" % (prop, f.name, k), "text written with the key / label quoting rule is followed by `:` on every successful path",
+                  "%s writes text with the key / label quoting rule (write_plain_or_quoted) in a position that is not followed by `:`: a value written that way is not protected against flow indicators or YAML 1.1 boolean / float spellings (`!!E yes` reads back as a bool)" % f.npath,
+                  config, ctx.where(f, b))
+    ctx.floor("TABLE.label-rule-callers", n, 6, config)
+
+
+def rule_variants_in_flow(ctx, fx, config, prop="C20"):
+    """Inside a flow collection (`in_flow > 0`) line breaks and indentation mean nothing: the block form `Variant:` + newline of a
+    newtype / tuple / struct variant must not be written there.  In each of the three variant serializers every call that belongs
+    to the block form (newline, indentation, the label quoting rule) lies on the `in_flow == 0` side of a test of the flow counter,
+    and the flow side opens a flow mapping (`{`)."""
+    n = 0
+    for nm in ("serialize_newtype_variant", "serialize_tuple_variant", "serialize_struct_variant"):
+        cands = [f for f in fx.fns.values() if f.name == nm and "YamlSerializer" in f.npath and f.file.endswith("src/ser.rs")]
+        if not cands:
+            raise MissingAnchor("YamlSerializer::%s" % nm)
+        f = cands[0]
+        ctx.saw(f)
+        flow_edges = []
+        with f.deep():
+            for c in compares(f):
+                if "in_flow" in c["rl"] and c["rr"] == "0":
+                    if c["op"] == "Gt" or c["op"] == "Ne":
+                        flow_edges.append((c["block"], c["t"], c["f"]))
+                    elif c["op"] == "Eq":
+                        flow_edges.append((c["block"], c["f"], c["t"]))
+        block_calls = [b for b, t in f.calls() if last_seg(fx.callee(t)) in ("newline", "write_indent", "write_plain_or_quoted")]
+        n += 1
+        ok = bool(flow_edges) and bool(block_calls) and all(any(f.edge_dominates(cb, blk, b) for cb, fl, blk in flow_edges) for b in block_calls)
+        ctx.check(ok, "FLOW", "%s:FLOW:variant-block-form-only-outside-flow:%s" % (prop, nm), "%s writes its block form (label, line break, indentation) only when not inside a flow collection" % nm,
+                  "%s can write the block form `Variant:` + line break / indentation inside a flow collection: `[S:\\n  f: [1]]` and `{a: N: 1}` do not parse" % nm, config, ctx.where(f))
+        opens = any(last_seg(fx.callee(t)) == "open_flow_variant" or (last_seg(fx.callee_decl(t) or "") in ("write_str", "write_char") and len(t["args"]) > 1 and f.sym_operand(t["args"][-1])[:2] == ("const", "{")) for b, t in f.calls()
+                    if any(f.edge_dominates(cb, fl, b) for cb, fl, blk in flow_edges))
+        ctx.check(opens, "FLOW", "%s:FLOW:variant-flow-form-opens-mapping:%s" % (prop, nm), "inside flow %s opens a single-entry flow mapping" % nm,
+                  "%s has no flow form that opens `{Variant: …}`" % nm, config, ctx.where(f))
+    ctx.floor("FLOW.variant-serializers", n, 3, config)
 
 
 def _chars(sym):
